@@ -151,6 +151,18 @@ pub struct HandlerRunner {
     /// the wire length at that moment
     old_keys_mark: usize,
     old_wire_mark: usize,
+    /// real-clock instants (the session cache reads the real clock): when a key first appeared, and when
+    /// a node last sealed something for / was delivered something authentic from a peer address
+    key_born: HashMap<[u8; 16], std::time::Instant>,
+    entry_use: HashMap<(u64, SocketAddr), std::time::Instant>,
+    /// when a node last sealed something fresh for (address, node): its session was certainly alive then
+    entry_lo: HashMap<(u64, SocketAddr, u64), std::time::Instant>,
+    /// something happened since that may have ended the session for a reason of its own (a packet that
+    /// did not authenticate, a failed request, an answer to an internal request)
+    entry_dirty: HashSet<(u64, SocketAddr)>,
+    /// sessions that went away without such a reason (node, address, peer, last certain use, when
+    /// noticed, latest possible use of every other entry of the node at that moment)
+    vanished: Vec<(u64, SocketAddr, u64, std::time::Instant, HashMap<SocketAddr, std::time::Instant>)>,
     next_del: usize,
     next_wru: HashMap<u64, usize>,
     next_req: HashMap<u64, usize>,
@@ -195,6 +207,11 @@ impl Default for HandlerRunner {
             ttl_ms: 86_400_000,
             old_keys_mark: 0,
             old_wire_mark: 0,
+            key_born: HashMap::new(),
+            entry_use: HashMap::new(),
+            entry_lo: HashMap::new(),
+            entry_dirty: HashSet::new(),
+            vanished: Vec::new(),
             next_del: 0,
             next_wru: HashMap::new(),
             next_req: HashMap::new(),
@@ -519,6 +536,8 @@ impl HandlerRunner {
                         if !self.keys.iter().any(|(kb, _)| *kb == k.initiator_key) {
                             self.keys.push((k.initiator_key, t_ini));
                             self.keys.push((k.recipient_key, t_rcp));
+                            self.key_born.insert(k.initiator_key, std::time::Instant::now());
+                            self.key_born.insert(k.recipient_key, std::time::Instant::now());
                         }
                         ct = self.ct_term(p.nonce, nn, &p.message, &aad, owner, true).0;
                     }
@@ -670,6 +689,10 @@ impl HandlerRunner {
                     events.push(format!("fail>{}>{}", rid, err_name(&e)));
                     let now = self.now_ms;
                     let timeout = self.timeout_ms;
+                    let addrs: Vec<SocketAddr> = self.entry_use.keys().filter(|(n, _)| *n == idx).map(|(_, a)| *a).collect();
+                    for a in addrs {
+                        self.entry_dirty.insert((idx, a));
+                    }
                     if let Some(l) = self.ledger.reqs.get_mut(&(idx, rid)) {
                         l.failures += 1;
                         if l.failures > 1 {
@@ -846,6 +869,36 @@ impl HandlerRunner {
                             }
                             self.withheld = keep;
                             self.last_seal.insert((from, d), k);
+                            // C15: between two uses of one session (sealing, or accepting something sealed by
+                            // the peer) no more than the session timeout may pass; measured on the real clock,
+                            // from the later of the key's first appearance and the last use, with 100 ms to spare
+                            let now = std::time::Instant::now();
+                            if !self.ledger.key_nonce.contains_key(&(k, p.nonce)) {
+                                let base = match (self.entry_use.get(&(from, d)), self.key_born.get(&k)) {
+                                    (Some(a), Some(b)) => Some(*a.max(b)),
+                                    (None, Some(b)) => Some(*b),
+                                    _ => None,
+                                };
+                                if let Some(b) = base {
+                                    let idle = now.duration_since(b).as_millis() as u64;
+                                    if idle > self.ttl_ms.saturating_add(100) {
+                                        out.push(format!("!MON C15 sealed-under-a-session-idle-for-longer-than-the-timeout node={} to={}", from, dst_idx));
+                                    }
+                                }
+                            }
+                            // C15: a session that went away for no reason of its own was evicted; one that
+                            // was certainly used less recently (its key is older than, and every possible use
+                            // of it precedes, the last certain use of the evicted one) cannot have survived it
+                            if let Some(born) = self.key_born.get(&k) {
+                                for v in &self.vanished {
+                                    if v.0 == from && v.1 != d && *born < v.3 && v.4.get(&d).map(|h| *h < v.3).unwrap_or(false) {
+                                        out.push(format!("!MON C15 session-dropped-while-a-less-recently-used-one-was-kept node={} dropped={} kept={}", from, v.2, dst_idx));
+                                    }
+                                }
+                            }
+                            self.entry_use.insert((from, d), now);
+                            self.entry_lo.insert((from, d, dst_idx), now);
+                            self.entry_dirty.remove(&(from, d));
                         }
                         // C15: a packet made after an idle period longer than the session timeout
                         // must not be sealed under a key from before that period
@@ -868,8 +921,26 @@ impl HandlerRunner {
                         break;
                     }
                 }
+                // a message under no known key: the node has no session with that peer (any more)
+                if matches!(p.kind, PacketKind::Message { .. }) && self.last_emit_sessionless(p.nonce, &p.message, &aad) {
+                    let fresh_bytes = !self.wire.iter().any(|w| w.from_idx == from && w.bytes == bytes);
+                    if let (Some(d), true) = (self.wire_dst_hint, fresh_bytes) {
+                        if let Some(lo) = self.entry_lo.remove(&(from, d, dst_idx)) {
+                            if !self.entry_dirty.contains(&(from, d)) && self.ttl_ms >= 86_400_000 {
+                                let snap: HashMap<SocketAddr, std::time::Instant> =
+                                    self.entry_use.iter().filter(|((n, a), _)| *n == from && *a != d).map(|((_, a), t)| (*a, *t)).collect();
+                                self.vanished.push((from, d, dst_idx, lo, snap));
+                            }
+                        }
+                        self.entry_dirty.remove(&(from, d));
+                    }
+                }
             }
         }
+    }
+
+    fn last_emit_sessionless(&self, nonce: [u8; 12], message: &[u8], aad: &[u8]) -> bool {
+        !self.keys.iter().any(|(k, _)| hf::aead_decrypt(k, nonce, message, aad).is_some())
     }
 
     /// C01: an effect attributed to `claimed` at node `at` needs a handshake genuinely signed by
@@ -1414,6 +1485,15 @@ impl HandlerRunner {
                 self.cur_key = self.last_ct_key;
                 self.delivering_handshake = term.as_ref().map(|t| t.starts_with("H~")).unwrap_or(false);
                 self.cur_authentic = term.as_ref().map(|t| t.contains("E[")).unwrap_or(false);
+                if self.cur_authentic {
+                    self.entry_use.insert((tidx, src), std::time::Instant::now());
+                    // (an answer to one of the handler's own requests may end the session: record not valid)
+                    if term.as_ref().map(|t| t.contains("resp/1000")).unwrap_or(false) {
+                        self.entry_dirty.insert((tidx, src));
+                    }
+                } else {
+                    self.entry_dirty.insert((tidx, src));
+                }
                 self.cur_wru_foreign = false;
                 if let Some(tm) = &term {
                     if tm.starts_with("W~") {
@@ -1756,6 +1836,48 @@ pub fn gen_case(rng: &mut Rng, tier: &str, profile: &str, stats: &mut Stats) -> 
         ops.push("hquiet".into());
         return ops;
     }
+    if c15 && rng.chance(1, 4) {
+        // directed case: a cache of two, both sessions in use, the less recently used one still awaited
+        // an answer on; a third peer connects: the less recently used session is the one that goes
+        stats.bump("gen.cases.c15-eviction-with-request-in-flight");
+        let x = rng.range(1, 3);
+        let (y, z) = match (x, rng.chance(1, 2)) { (1, true) => (2, 3), (1, false) => (3, 2), (2, true) => (1, 3), (2, false) => (3, 1), (_, true) => (1, 2), _ => (2, 1) };
+        ops.push(format!("hworld 3 {} {} 2 86400000", retries, timeout));
+        let mut rid = 1u64;
+        for p in [y, z] {
+            ops.push(format!("hreq {} {} enr {} 1", x, p, rid)); rid += 1;
+            for _ in 0..2 { ops.push("hdel next".into()); }
+            ops.push(format!("hwru {} next known", p));
+            for _ in 0..3 { ops.push("hdel next".into()); }
+            ops.push(format!("hresp {} next auto", p));
+            ops.push("hdel next".into());
+        }
+        ops.push(format!("hreq {} {} enr {} {}", x, y, rid, rng.range(1, 4))); rid += 1;
+        ops.push("hdel next".into());
+        for _ in 0..rng.range(1, 2) {
+            ops.push(format!("hreq {} {} enr {} {}", x, z, rid, rng.range(1, 4))); rid += 1;
+            ops.push("hdel next".into());
+            ops.push(format!("hresp {} next auto", z));
+            ops.push("hdel next".into());
+        }
+        ops.push(format!("hcraft random 9 {}", x));
+        ops.push("hdel last 9".into());
+        ops.push("hdel skip".into());
+        ops.push(format!("hwru {} next none", x));
+        ops.push("hdel next".into());
+        ops.push(format!("hcraft handshake 9 9 {} w own 1", x));
+        ops.push("hdel last 9".into());
+        ops.push("hdel skip".into());
+        for _ in 0..2 { ops.push("hdel next".into()); }
+        for p in [z, y] {
+            ops.push(format!("hreq {} {} enr {} 1", x, p, rid)); rid += 1;
+            for _ in 0..2 { ops.push("hdel next".into()); }
+            ops.push(format!("hwru {} next known", p));
+            for _ in 0..3 { ops.push("hdel next".into()); }
+        }
+        ops.push("hquiet".into());
+        return ops;
+    }
     if c15 {
         // short real-time session timeout, small cache
         ops.push(format!("hworld {} {} {} {} 300", n, retries, timeout, rng.range(1, 3)));
@@ -1791,8 +1913,24 @@ pub fn gen_case(rng: &mut Rng, tier: &str, profile: &str, stats: &mut Stats) -> 
                 ops2.push(format!("hwru {} next known", z));
                 for _ in 0..3 { ops2.push("hdel next".into()); }
             }
-            if round == 0 || rng.chance(1, 2) { ops2.push("hsleep 700".into()); }
-            let (a, b) = if rng.chance(1, 2) { (x, y) } else { (y, x) };
+            let noise = rng.chance(1, 3);
+            if noise {
+                // nothing is exchanged for longer than the timeout, but packets that do not decrypt keep
+                // arriving in the peer's name from its address: they are no use of the session
+                stats.bump("gen.cases.c15-noise-while-idle");
+                for _ in 0..3 {
+                    ops2.push("hsleep 200".into());
+                    ops2.push(format!("hcraft random {} {}", y, x));
+                    ops2.push(format!("hdel last {}", y));
+                    ops2.push("hdel skip".into());
+                    if rng.chance(1, 2) {
+                        ops2.push(format!("hwru {} next known", x));
+                        ops2.push("hdel next".into());
+                    }
+                }
+                ops2.push("hsleep 150".into());
+            } else if round == 0 || rng.chance(1, 2) { ops2.push("hsleep 700".into()); }
+            let (a, b) = if noise || rng.chance(1, 2) { (x, y) } else { (y, x) };
             ops2.push(format!("hreq {} {} enr {} {}", a, b, rid, rng.range(1, 4))); rid += 1;
             for _ in 0..2 { ops2.push("hdel next".into()); }
             ops2.push(format!("hwru {} next known", b));
